@@ -7,7 +7,7 @@ from mirsym.harness import Checker, program
 from mirsym.refsem import IR
 
 ROOTS = []        # this check uses its own dump (generic entry points instantiated by /verif/c20-harness)
-BUILDER_FNS = ['b_new', 'm_literal', 'm_path', 'm_paths', 'm_mode', 'o_literal', 'o_path', 'o_paths', 's_literal', 's_path', 's_paths', 's_mode', 'r_literal', 'r_path', 'r_paths']
+BUILDER_FNS = ['b_new', 'b_new_cfg', 'm_literal', 'm_path', 'm_paths', 'm_mode', 'o_literal', 'o_path', 'o_paths', 's_literal', 's_path', 's_paths', 's_mode', 'r_literal', 'r_path', 'r_paths']
 SWAP_FNS = ['tb_new', 'tm_literal', 'tm_mode', 'to_literal', 'ts_mode', 'x_to_ts', 'x_to_rasn']
 C20_ROOTS = ['c20_harness::compile_rasn', 'c20_harness::compile_ts'] + ['c20_harness::' + f for f in BUILDER_FNS + SWAP_FNS]
 ASSUMPTIONS = [
@@ -76,6 +76,14 @@ def install_stubs():
             return Adt(rt, ex.p.variant_index(rt, 'Ok'), [StringV([Frag('opaque', 'F')])])
         ex.ghost['formatted'] = False
         return Adt(rt, ex.p.variant_index(rt, 'Err'), [Opaque('CompilerError')])
+
+    @model(r'RasnBackend as rasn_compiler::(prelude|generator)::Backend>::from_config$')
+    def s_from_config(ex, n, a, f):
+        # no MIR for this non-generic function in the harness crate's session (C19 executes the real one): the backend keeps the
+        # configuration it is given; everything else in it is opaque to the builder
+        rt = ret_ty(f)
+        vals = [a[0] if fl['name'] == 'config' else Opaque('backend.' + fl['name']) for fl in ex.p.ty(rt)['adt']['variants'][0]['fields']]
+        return Adt(rt, 0, vals)
 
     @model(r'^std::path::Path::is_dir$')
     def s_is_dir(ex, n, a, f):
@@ -156,7 +164,16 @@ def install_stubs():
 
     @model(r'^<rasn_compiler::(prelude::)?\w+(::\w+)* as std::default::Default>::default$')
     def s_backend_default(ex, n, a, f):
-        return Opaque('backend')
+        # a default backend is NOT a configured one: the options of a default rasn backend are unknown (fresh variables), so a
+        # builder transition that rebuilds the compiler from Compiler::new() cannot be shown to keep the configuration
+        rt = ret_ty(f)
+        t = ex.p.ty(rt)
+        flds = t['adt']['variants'][0]['fields'] if t.get('adt') and t['adt']['variants'] else []
+        cfg = [fl for fl in flds if fl['name'] == 'config']
+        if not cfg or not ex.p.ty(cfg[0]['ty']).get('adt') or not any(cf['name'] == 'generate_from_impls' for cf in ex.p.ty(cfg[0]['ty'])['adt']['variants'][0]['fields']):
+            return Opaque('backend')
+        cvals = [VecV([]) if cf['name'] in ('custom_imports', 'type_annotations') else z3.Bool('default_' + cf['name']) for cf in ex.p.ty(cfg[0]['ty'])['adt']['variants'][0]['fields']]
+        return Adt(rt, 0, [Adt(cfg[0]['ty'], 0, cvals) if fl['name'] == 'config' else Opaque('backend.' + fl['name']) for fl in flds])
 
     @model(r'^std::io::stdout$')
     def s_stdout(ex, n, a, f):
@@ -206,7 +223,7 @@ def install_stubs():
     def s_str_as_bytes_ref(ex, n, a, f):
         return a[0]
     # these stubs must take precedence over generic models
-    for _ in range(18):
+    for _ in range(19):
         REGISTRY.insert(0, REGISTRY.pop())
 
 
@@ -469,6 +486,8 @@ def job_builder(prog, chk, tier):
     depth = 4 if tier == 'quick' else 5
     ir = IR(chk.ex)
     om_ty = prog.inst[fns['m_mode']]['locals'][2]
+    cfg_ty = prog.inst[fns['b_new_cfg']]['locals'][1]
+    cfgsyms = {cf['name']: z3.Bool('cfg_' + cf['name']) for cf in prog.ty(cfg_ty)['adt']['variants'][0]['fields'] if cf['name'] not in ('custom_imports', 'type_annotations')}
 
     def seqs(state, n):
         if n == 0:
@@ -484,7 +503,17 @@ def job_builder(prog, chk, tier):
         sig = 'C20 builder ' + ' > '.join(t[1] for t in q)
 
         def run(ex, q=q):
-            c = ex.call(fns['b_new'], [])
+            # the compiler starts from a configured backend: the four boolean options are free solver variables that the
+            # resulting compiler must still hold (a transition that rebuilds the compiler from Compiler::new() loses them)
+            cvals = []
+            for cf in prog.ty(cfg_ty)['adt']['variants'][0]['fields']:
+                if cf['name'] in ('custom_imports',):
+                    cvals.append(VecV([]))
+                elif cf['name'] == 'type_annotations':
+                    cvals.append(VecV([Cell(StringV([ord(ch) for ch in '#[derive(AsnType, Debug, Clone, Decode, Encode, PartialEq, Eq, Hash)]']))]))
+                else:
+                    cvals.append(cfgsyms[cf['name']])
+            c = ex.call(fns['b_new_cfg'], [Adt(cfg_ty, 0, cvals)])
             want = []
             k = 0
             for fn, kind, _ in q:
@@ -521,8 +550,30 @@ def job_builder(prog, chk, tier):
                     x = ir.f(x)
                     v = ir.f(x.fields[0])
                     got.append(('lit', chars_repr(v.chars)) if ir.vn(x) == 'Literal' else ('path', v.name if isinstance(v, PathV) else repr(v)))
+            bad = None
             if got != want:
-                chk.violation(sig, f"after {' > '.join(names)} the compiler holds the sources {got}, given were {want}", {'kind': 'kernel', 'calls': names})
+                bad = f"after {' > '.join(names)} the compiler holds the sources {got}, given were {want}"
+            # the output mode set last is the one held
+            modes = [f"OUT{k}" for k, (_, kind, _) in enumerate(q) if kind == 'mode']
+            if bad is None and modes:
+                try:
+                    om = ir.f(ir.get(st, 'output_mode'))
+                    held = ir.f(om.fields[0])
+                    if ir.vn(om) != 'SingleFile' or not isinstance(held, PathV) or held.name != modes[-1]:
+                        bad = f"after {' > '.join(names)} the output mode is {ir.vn(om)}({getattr(held, 'name', held)}), set was SingleFile({modes[-1]})"
+                except Exception as e:
+                    bad = f"after {' > '.join(names)} the output mode cannot be read ({e})"
+            # the configured backend is the one held: z3 decides equality of every option for all values
+            if bad is None:
+                cfg = ir.f(ir.get(ir.f(ir.get(ir.f(c), 'backend')), 'config'))
+                for nm, sym in cfgsyms.items():
+                    held = ir.get(cfg, nm)
+                    m = chk.holds(r.pc, held == sym if not isinstance(held, bool) else (sym if held else z3.Not(sym)), 'builder-config')
+                    if m is not None:
+                        bad = f"after new_with_config(..) > {' > '.join(names)} the backend option {nm} is {held} whatever was configured (e.g. configured {m.eval(sym, model_completion=True)})"
+                        break
+            if bad:
+                chk.violation(sig, bad, {'kind': 'kernel', 'calls': names})
             else:
                 chk.res.discharged += 1
         chk.witness('builder sequences explored', True)
